@@ -55,8 +55,9 @@ type manyAdapter struct {
 	call   int
 	buf    []uint64
 	done   bool
-	zeroOK bool // a zero-length buffer returned 0
-	over   bool // NextMany returned more than the buffer length
+	zeroOK bool   // a zero-length buffer returned 0
+	hs     uint64 // != 0: use NextMany64 with these high bits
+	over   bool   // NextMany returned more than the buffer length
 }
 
 func (m *manyAdapter) fill() {
@@ -64,7 +65,20 @@ func (m *manyAdapter) fill() {
 		sz := m.sizes[m.call%len(m.sizes)]
 		m.call++
 		var n int
-		if m.m32 != nil {
+		if m.m32 != nil && m.hs != 0 {
+			b := make([]uint64, sz)
+			n = m.m32.NextMany64(m.hs, b)
+			if n > sz {
+				m.over = true
+				n = sz
+			}
+			for _, v := range b[:n] {
+				if v>>32 != m.hs>>32 {
+					m.over = true // the high bits are not the ones asked for
+				}
+				m.buf = append(m.buf, v&0xFFFFFFFF)
+			}
+		} else if m.m32 != nil {
 			b := make([]uint32, sz)
 			n = m.m32.NextMany(b)
 			if n > sz {
@@ -234,6 +248,18 @@ func (e *Exec) doIter(c *Call, ev *Event) bool {
 			if e.mode64 {
 				p := p64{e.bm64(c.X).Iterator()}
 				st.it, st.pk = p, p
+			} else if e.rng.Intn(3) == 0 {
+				// a caller-owned iterator value, (re)initialised: first on another bitmap, partly consumed, then on this one
+				it := new(roaring.IntIterator)
+				if e.rng.Intn(2) == 0 {
+					it.Initialize(e.bm(1 + e.rng.Intn(NSLOT)))
+					for k := 0; k < 3 && it.HasNext(); k++ {
+						it.Next()
+					}
+				}
+				it.Initialize(e.bm(c.X))
+				p := p32{it}
+				st.it, st.pk = p, p
 			} else {
 				p := p32{e.bm(c.X).Iterator()}
 				st.it, st.pk = p, p
@@ -241,6 +267,16 @@ func (e *Exec) doIter(c *Call, ev *Event) bool {
 		case "rev":
 			if e.mode64 {
 				st.it = r64{e.bm64(c.X).ReverseIterator()}
+			} else if e.rng.Intn(3) == 0 {
+				it := new(roaring.IntReverseIterator)
+				if e.rng.Intn(2) == 0 {
+					it.Initialize(e.bm(1 + e.rng.Intn(NSLOT)))
+					for k := 0; k < 3 && it.HasNext(); k++ {
+						it.Next()
+					}
+				}
+				it.Initialize(e.bm(c.X))
+				st.it = r32{it}
 			} else {
 				st.it = r32{e.bm(c.X).ReverseIterator()}
 			}
@@ -248,6 +284,17 @@ func (e *Exec) doIter(c *Call, ev *Event) bool {
 			m := &manyAdapter{sizes: manySizes[c.J%len(manySizes)], zeroOK: true}
 			if e.mode64 {
 				m.m64 = e.bm64(c.X).ManyIterator()
+			} else if e.rng.Intn(3) == 0 {
+				it := new(roaring.ManyIntIterator)
+				if e.rng.Intn(2) == 0 {
+					it.Initialize(e.bm(1 + e.rng.Intn(NSLOT)))
+					it.NextMany(make([]uint32, 3))
+				}
+				it.Initialize(e.bm(c.X))
+				m.m32 = it
+				if e.rng.Intn(2) == 0 { // NextMany64: 64-bit output, the given high bits OR-ed in
+					m.hs = uint64(e.rng.Uint32())<<32 | 1<<63
+				}
 			} else {
 				m.m32 = e.bm(c.X).ManyIterator()
 			}
